@@ -57,6 +57,7 @@ fn main() {
                 "C12" => props::c12::run(tier),
                 "C13" => props::c13::run(tier),
                 "C14" => props::c14::run(tier),
+                "C15" => props::c15::run(tier),
                 "C16" => props::c16::run(tier),
                 "C17" => props::c17::run(tier),
                 _ => {
@@ -87,6 +88,7 @@ fn main() {
             }));
             let (fam, ex): (std::sync::Arc<dyn families::Family>, std::sync::Arc<sweep::Exercise>) = match mode {
                 "c01-release" => (props::c01::families(tier, "release").swap_remove(fi).0, std::sync::Arc::new(with_note(props::c01::exercise))),
+                "c15" => (props::c15::families(tier).swap_remove(fi).0, std::sync::Arc::new(with_note(props::c15::exercise))),
                 "c01-dev" => (props::c01::families(tier, "dev").swap_remove(fi).0, std::sync::Arc::new(with_note(props::c01::exercise))),
                 _ => {
                     eprintln!("unknown worker mode {}", mode);
